@@ -26,7 +26,7 @@ RefUnwrap(e, k, c) ==
   ELSE LET j == KWPUnwrap(k, c)
        IN IF Deep(e, Len(c)) THEN <<RFCUnwrap(k, c) = j, j[1], j[2]>> ELSE <<TRUE, j[1], j[2]>>
 
-Judge(e) ==
+JudgeValue(e) ==
   CASE e.ev = "construct" -> <<>>
     [] e.ev = "wrap" ->
          LET r == RefWrap(e, HexToBytes(e.key), HexToBytes(e.pt))
@@ -63,6 +63,15 @@ Judge(e) ==
              ELSE IF j[1] THEN <<"SPEC: JDK unwrap accepts an invalid vector", e.kind>>
              ELSE <<>>
     [] OTHER -> <<"unknown event", e.ev>>
+
+\* Every byte string handed to the real code lives in a driver buffer with sentinel-filled spare capacity and guard
+\* zones; inIntact records that input bytes, spare capacity and guards were unchanged after the call(s) of the event.
+\* A call that alters its input has not computed the standard value "for the caller's input": judged together with
+\* the value.  (Known-answer events of the reference gate carry no inIntact.)
+Judge(e) ==
+  IF "inIntact" \in DOMAIN e /\ ~e.inIntact
+  THEN <<"the call altered a buffer handed in by the caller (input bytes, spare capacity or guard zone)", "unchanged">>
+  ELSE JudgeValue(e)
 
 Start == IF "VERIF_START" \in DOMAIN IOEnv THEN atoi(IOEnv.VERIF_START) ELSE 1
 
